@@ -1,4 +1,5 @@
 import AwsVerif.Proofs.C06.Cap
+import AwsVerif.Proofs.C06.Bridge
 /-!
 C06 — priority queue pops in comparator order; handles always track their element.
 
@@ -6,41 +7,42 @@ Vocabulary (all in `Model/Heap.lean`): `G` is the queue together with the refere
 (reference multiset, a list compared up to permutation), `owner h` (the element most recently pushed
 successfully with handle `h`) and the uid counter; `gstep` executes one op on the model of
 `priority_queue.c` and updates the reference state from the op and the *returned result* only;
-`Reach g`: `g` is reached from `aws_priority_queue_init_dynamic/static` by a legal op sequence (a
+`Reach c g`: `g` is reached from `aws_priority_queue_init_dynamic/static` by a legal op sequence (a
 handle passed to `push_ref` is not in the queue) of fewer than 2^63 - 2 operations.
-Comparator: elements are compared by their `Nat` key with `≤` (a total preorder; general comparators
-are not modelled).
+Comparator: every theorem is for an arbitrary comparator `c : Cmp` on keys (`c.gt a b` = `pred(a, b) > 0`)
+under the hypothesis `CmpOK c` that `c.le a b := ¬ pred(a, b) > 0` is a total preorder.  Instances: `natCmp`
+(min-heap on `Nat`, `natCmp_ok`) and the scheduler's generated `s_compare_timestamps` (`tsCmp_ok`, Props/C07).
 -/
 namespace AwsVerif.Props.C06
 open AwsVerif.Heap AwsVerif.Proofs.C06
 
 /-- Heap order and the back-pointer/handle bijection hold in every reachable state (hence are
 preserved by every operation). -/
-theorem c06_heap_inv {g : G} (h : Reach g) : HeapOrd g.q.items ∧ BpOK g.q :=
-  let hi := (reach_inv h).1
+theorem c06_heap_inv {c : Cmp} (hc : CmpOK c) {g : G} (h : Reach c g) : HeapOrd c g.q.items ∧ BpOK g.q :=
+  let hi := (reach_inv hc h).1
   ⟨hi.q.heap, hi.q.frame.bpok⟩
 
 /-- every legal step from a reachable state re-establishes heap order and the bijection (one-step form,
 for a state at any distance below the length bound) -/
-theorem c06_heap_inv_step {g : G} (h : Reach g) {op : Op} (hl : legalOp g op = true) :
-    HeapOrd (gstep g op).1.q.items ∧ BpOK (gstep g op).1.q :=
-  let hi := reach_inv h
-  let h' := gstep_inv hi.1 hi.2 hl
+theorem c06_heap_inv_step {c : Cmp} (hc : CmpOK c) {g : G} (h : Reach c g) {op : Op} (hl : legalOp g op = true) :
+    HeapOrd c (gstep c g op).1.q.items ∧ BpOK (gstep c g op).1.q :=
+  let hi := reach_inv hc h
+  let h' := gstep_inv hc hi.1 hi.2 hl
   ⟨h'.q.heap, h'.q.frame.bpok⟩
 
 /-- The contents are a permutation of the reference multiset, and the sizes agree; all elements are distinct. -/
-theorem c06_multiset {g : G} (h : Reach g) :
+theorem c06_multiset {c : Cmp} (hc : CmpOK c) {g : G} (h : Reach c g) :
     g.q.items.toList.Perm g.ref ∧ g.q.items.size = g.ref.length ∧ g.ref.Nodup :=
-  let hi := (reach_inv h).1
+  let hi := (reach_inv hc h).1
   ⟨hi.q.frame.perm, size_eq_length hi, hi.nodup⟩
 
 /-- `pop` on an empty queue fails with `PRIORITY_QUEUE_EMPTY` and changes nothing; otherwise it returns a
 stored element whose key is ≤ every stored key, and exactly that element leaves the reference multiset. -/
-theorem c06_pop_min {g : G} (h : Reach g) :
-    (g.ref = [] → gstep g .pop = (g, .err .empty)) ∧
-    (g.ref ≠ [] → ∃ e, (gstep g .pop).2 = .elem e ∧ e ∈ g.ref ∧ (∀ x ∈ g.ref, e.key ≤ x.key) ∧
-        (gstep g .pop).1.ref = g.ref.erase e) := by
-  obtain ⟨hi, hn⟩ := reach_inv h
+theorem c06_pop_min {c : Cmp} (hc : CmpOK c) {g : G} (h : Reach c g) :
+    (g.ref = [] → gstep c g .pop = (g, .err .empty)) ∧
+    (g.ref ≠ [] → ∃ e, (gstep c g .pop).2 = .elem e ∧ e ∈ g.ref ∧ (∀ x ∈ g.ref, c.le e.key x.key) ∧
+        (gstep c g .pop).1.ref = g.ref.erase e) := by
+  obtain ⟨hi, hn⟩ := reach_inv hc h
   have hs := size_eq_length hi
   constructor
   · intro he
@@ -50,20 +52,20 @@ theorem c06_pop_min {g : G} (h : Reach g) :
     have h0 : g.q.items.size ≠ 0 := by
       rw [hs]; intro hl; exact hne (List.eq_nil_of_length_eq_zero hl)
     have hsz : g.q.items.size < 2^63 := by have := hi.size_le; omega
-    obtain ⟨e, he, hr, _⟩ := removeNode_spec hi.q hi.nodup hsz (Nat.pos_of_ne_zero h0)
-    have hm := root_min hi.q he
+    obtain ⟨e, he, hr, _⟩ := removeNode_spec hc hi.q hi.nodup hsz (Nat.pos_of_ne_zero h0)
+    have hm := root_min hc hi.q he
     refine ⟨e, ?_, hm.1, hm.2, ?_⟩ <;>
     · simp only [gstep, pop_eq h0]
-      have : removeNode g.q 0 = ((removeNode g.q 0).1, .ok e) := by rw [← hr]
+      have : removeNode c g.q 0 = ((removeNode c g.q 0).1, .ok e) := by rw [← hr]
       rw [this]
 
 /-- `top` never changes the queue; on an empty queue it fails with `PRIORITY_QUEUE_EMPTY`, otherwise it
 returns a stored element whose key is ≤ every stored key. -/
-theorem c06_top_min {g : G} (h : Reach g) :
-    (gstep g .top).1 = g ∧
-    (g.ref = [] → (gstep g .top).2 = .err .empty) ∧
-    (g.ref ≠ [] → ∃ e, (gstep g .top).2 = .elem e ∧ e ∈ g.ref ∧ ∀ x ∈ g.ref, e.key ≤ x.key) := by
-  obtain ⟨hi, hn⟩ := reach_inv h
+theorem c06_top_min {c : Cmp} (hc : CmpOK c) {g : G} (h : Reach c g) :
+    (gstep c g .top).1 = g ∧
+    (g.ref = [] → (gstep c g .top).2 = .err .empty) ∧
+    (g.ref ≠ [] → ∃ e, (gstep c g .top).2 = .elem e ∧ e ∈ g.ref ∧ ∀ x ∈ g.ref, c.le e.key x.key) := by
+  obtain ⟨hi, hn⟩ := reach_inv hc h
   have hs := size_eq_length hi
   refine ⟨?_, ?_, ?_⟩
   · simp only [gstep]; split <;> rfl
@@ -74,36 +76,36 @@ theorem c06_top_min {g : G} (h : Reach g) :
     have h0 : g.q.items.size ≠ 0 := by
       rw [hs]; intro hl; exact hne (List.eq_nil_of_length_eq_zero hl)
     have he : g.q.items[0]? = some g.q.items[0] := Array.getElem?_eq_getElem (Nat.pos_of_ne_zero h0)
-    have hm := root_min hi.q he
+    have hm := root_min hc hi.q he
     exact ⟨_, by simp [gstep, top, h0, he], hm.1, hm.2⟩
 
 /-- A handle that is in the queue (`current_index = i`) sits on the very element it was pushed with —
 through every swap of every sift since — and `remove` by that handle returns exactly that element and
 removes exactly it from the reference multiset. -/
-theorem c06_handle_tracks {g : G} (h : Reach g) {x i : Nat} (hh : g.q.handles x = some i) :
+theorem c06_handle_tracks {c : Cmp} (hc : CmpOK c) {g : G} (h : Reach c g) {x i : Nat} (hh : g.q.handles x = some i) :
     ∃ e, g.owner x = some e ∧ g.q.items[i]? = some e ∧ e ∈ g.ref ∧
-      (gstep g (.remove x)).2 = .elem e ∧ (gstep g (.remove x)).1.ref = g.ref.erase e := by
-  obtain ⟨hi, hn⟩ := reach_inv h
+      (gstep c g (.remove x)).2 = .elem e ∧ (gstep c g (.remove x)).1.ref = g.ref.erase e := by
+  obtain ⟨hi, hn⟩ := reach_inv hc h
   obtain ⟨e, ho, he, hm, hlt⟩ := tracks_elem hi hh
   have hsz : g.q.items.size < 2^63 := by have := hi.size_le; omega
-  obtain ⟨e', he', hr, _⟩ := removeNode_spec hi.q hi.nodup hsz hlt
+  obtain ⟨e', he', hr, _⟩ := removeNode_spec hc hi.q hi.nodup hsz hlt
   have : e' = e := by rw [he] at he'; exact (Option.some.inj he').symm
   subst this
   refine ⟨e', ho, he, hm, ?_, ?_⟩ <;>
   · simp only [gstep, remove_live hi.q hh]
-    have : removeNode g.q i = ((removeNode g.q i).1, .ok e') := by rw [← hr]
+    have : removeNode c g.q i = ((removeNode c g.q i).1, .ok e') := by rw [← hr]
     rw [this]
 
 /-- A handle is in the queue exactly as long as the element it was (last) pushed with is stored. -/
-theorem c06_handle_live_iff {g : G} (h : Reach g) (x : Nat) :
+theorem c06_handle_live_iff {c : Cmp} (hc : CmpOK c) {g : G} (h : Reach c g) (x : Nat) :
     (g.q.handles x).isSome ↔ ∃ e, g.owner x = some e ∧ e ∈ g.ref :=
-  live_iff (reach_inv h).1 x
+  live_iff (reach_inv hc h).1 x
 
 /-- A handle whose element has left the queue (or that never had one) is marked not-in-queue, and
 `remove` by it fails with `PRIORITY_QUEUE_BAD_NODE` leaving queue and reference state unchanged. -/
-theorem c06_stale_refused {g : G} (h : Reach g) (x : Nat) (hx : ¬ ∃ e, g.owner x = some e ∧ e ∈ g.ref) :
-    g.q.handles x = none ∧ gstep g (.remove x) = (g, .err .badNode) := by
-  have hi := (reach_inv h).1
+theorem c06_stale_refused {c : Cmp} (hc : CmpOK c) {g : G} (h : Reach c g) (x : Nat) (hx : ¬ ∃ e, g.owner x = some e ∧ e ∈ g.ref) :
+    g.q.handles x = none ∧ gstep c g (.remove x) = (g, .err .badNode) := by
+  have hi := (reach_inv hc h).1
   have hnone : g.q.handles x = none := by
     cases hh : g.q.handles x with
     | none => rfl
@@ -112,15 +114,15 @@ theorem c06_stale_refused {g : G} (h : Reach g) (x : Nat) (hx : ¬ ∃ e, g.owne
 
 /-- An element returned by `pop` or `remove` has really left (it is no longer in the reference
 multiset), and every handle it was pushed with is now not-in-queue; after `clear` every handle is. -/
-theorem c06_departed {g : G} (h : Reach g) :
-    (∀ op e, legalOp g op = true → op ≠ .top → (gstep g op).2 = .elem e →
-        e ∉ (gstep g op).1.ref ∧ ∀ x, g.owner x = some e → (gstep g op).1.q.handles x = none) ∧
-    (∀ x, (gstep g .clear).1.q.handles x = none) := by
-  obtain ⟨hi, hn⟩ := reach_inv h
+theorem c06_departed {c : Cmp} (hc : CmpOK c) {g : G} (h : Reach c g) :
+    (∀ op e, legalOp g op = true → op ≠ .top → (gstep c g op).2 = .elem e →
+        e ∉ (gstep c g op).1.ref ∧ ∀ x, g.owner x = some e → (gstep c g op).1.q.handles x = none) ∧
+    (∀ x, (gstep c g .clear).1.q.handles x = none) := by
+  obtain ⟨hi, hn⟩ := reach_inv hc h
   constructor
   · intro op e hl hop hr
-    have hi' := gstep_inv hi hn hl
-    have hown : (gstep g op).1.owner = g.owner ∧ (gstep g op).1.ref = g.ref.erase e := by
+    have hi' := gstep_inv hc hi hn hl
+    have hown : (gstep c g op).1.owner = g.owner ∧ (gstep c g op).1.ref = g.ref.erase e := by
       cases op with
       | push k ho => simp only [gstep] at hr; split at hr <;> cases hr
       | top => exact absurd rfl hop
@@ -131,13 +133,13 @@ theorem c06_departed {g : G} (h : Reach g) :
       | remove x =>
         simp only [gstep] at hr ⊢
         split at hr <;> simp_all
-    have hni : e ∉ (gstep g op).1.ref := by
+    have hni : e ∉ (gstep c g op).1.ref := by
       rw [hown.2]
       intro hm
       exact ((List.Nodup.mem_erase_iff hi.nodup).mp hm).1 rfl
     refine ⟨hni, ?_⟩
     intro x ho
-    cases hh : (gstep g op).1.q.handles x with
+    cases hh : (gstep c g op).1.q.handles x with
     | none => rfl
     | some i =>
       obtain ⟨e', ho', _, hm', _⟩ := tracks_elem hi' hh
@@ -145,8 +147,8 @@ theorem c06_departed {g : G} (h : Reach g) :
       cases ho'
       exact absurd hm' hni
   · intro x
-    have hi' := gstep_inv (op := .clear) hi hn rfl
-    cases hh : (gstep g .clear).1.q.handles x with
+    have hi' := gstep_inv hc (op := .clear) hi hn rfl
+    cases hh : (gstep c g .clear).1.q.handles x with
     | none => rfl
     | some i =>
       obtain ⟨e', _, _, hm', _⟩ := tracks_elem hi' hh
@@ -156,62 +158,103 @@ theorem c06_departed {g : G} (h : Reach g) :
 `LIST_EXCEEDS_MAX_SIZE` and leaves the queue unchanged; every other step that does not involve a handle
 is *the same function* as on a dynamic queue (the static queue is the dynamic one with the `cap` field
 set). Handles on a static queue are refused with `UNSUPPORTED_OPERATION` (queue unchanged). -/
-theorem c06_static_cap {g : G} {c : Nat} (hc : g.q.cap = some c) :
-    (Reach g → g.q.items.size ≤ c) ∧
-    (∀ k ho, c ≤ g.q.items.size →
-        gstep g (.push k ho) = ({ g with next := g.next + 1 }, .err .exceedsMax)) ∧
-    (∀ k, g.q.items.size < c →
-        gstep g (.push k none) =
-          (((gstep (g.withCap none) (.push k none)).1).withCap (some c), (gstep (g.withCap none) (.push k none)).2)) ∧
+theorem c06_static_cap {c : Cmp} (hc : CmpOK c) {g : G} {cp : Nat} (hcap : g.q.cap = some cp) :
+    (Reach c g → g.q.items.size ≤ cp) ∧
+    (∀ k ho, cp ≤ g.q.items.size →
+        gstep c g (.push k ho) = ({ g with next := g.next + 1 }, .err .exceedsMax)) ∧
+    (∀ k, g.q.items.size < cp →
+        gstep c g (.push k none) =
+          (((gstep c (g.withCap none) (.push k none)).1).withCap (some cp), (gstep c (g.withCap none) (.push k none)).2)) ∧
     (∀ op, (∀ k ho, op ≠ .push k ho) →
-        gstep g op = (((gstep (g.withCap none) op).1).withCap (some c), (gstep (g.withCap none) op).2)) ∧
-    (Reach g → ∀ k x, g.q.items.size < c →
-        gstep g (.push k (some x)) = ({ g with next := g.next + 1 }, .err .unsupported)) := by
-  have hg : g = (g.withCap none).withCap (some c) := by
+        gstep c g op = (((gstep c (g.withCap none) op).1).withCap (some cp), (gstep c (g.withCap none) op).2)) ∧
+    (Reach c g → ∀ k x, g.q.items.size < cp →
+        gstep c g (.push k (some x)) = ({ g with next := g.next + 1 }, .err .unsupported)) := by
+  have hg : g = (g.withCap none).withCap (some cp) := by
     cases g with | mk q n r o => cases q; simp_all [G.withCap, setCap]
   refine ⟨?_, ?_, ?_, ?_, ?_⟩
   · intro h
-    exact ((reach_inv h).1.q.capOK c hc).1
+    exact ((reach_inv hc h).1.q.capOK cp hcap).1
   · intro k ho hge
-    simp only [gstep, pushRef_static_full _ ho hc hge]
+    simp only [gstep, pushRef_static_full c _ ho hcap hge]
   · intro k hlt
-    have hq : g.q = setCap (g.withCap none).q (some c) := by
+    have hq : g.q = setCap (g.withCap none).q (some cp) := by
       cases g with | mk q n r o => cases q; simp_all [G.withCap, setCap]
-    have hlt' : (g.withCap none).q.items.size < c := hlt
-    have := pushRef_static_eq_dynamic (q := (g.withCap none).q) (c := c) ⟨k, g.next⟩ hlt'
+    have hlt' : (g.withCap none).q.items.size < cp := hlt
+    have := pushRef_static_eq_dynamic c (q := (g.withCap none).q) (cp := cp) ⟨k, g.next⟩ hlt'
     simp only [gstep, hq, this]
     have hn : (g.withCap none).next = g.next := rfl
     have hqq : setCap (g.withCap none).q none = (g.withCap none).q := rfl
     rw [hn, hqq]
-    cases hp : pushRef (g.withCap none).q ⟨k, g.next⟩ none with
+    cases hp : pushRef c (g.withCap none).q ⟨k, g.next⟩ none with
     | mk q' r =>
       cases r <;> simp [G.withCap, setCap]
   · intro op hop
-    have hq : g.q = setCap (g.withCap none).q (some c) := by
+    have hq : g.q = setCap (g.withCap none).q (some cp) := by
       cases g with | mk q n r o => cases q; simp_all [G.withCap, setCap]
     cases op with
     | push k ho => exact absurd rfl (hop k ho)
     | pop =>
       simp only [gstep, hq, pop_setCap]
-      cases hp : pop (g.withCap none).q with
+      cases hp : pop c (g.withCap none).q with
       | mk q' r => cases r <;> simp [G.withCap, setCap]
     | top =>
       simp only [gstep, hq, top_setCap]
       cases hp : top (g.withCap none).q <;> simp only [] <;> rw [← hg]
     | remove x =>
       simp only [gstep, hq, remove_setCap]
-      cases hp : remove (g.withCap none).q x with
+      cases hp : remove c (g.withCap none).q x with
       | mk q' r => cases r <;> simp [G.withCap, setCap]
     | clear =>
       simp only [gstep, hq, clear_setCap]
       simp [G.withCap, setCap]
   · intro h k x hlt
-    have hi := (reach_inv h).1
-    have hbp := (hi.q.capOK c hc).2
+    have hi := (reach_inv hc h).1
+    have hbp := (hi.q.capOK cp hcap).2
     have h1 : isFull g.q = false := by
-      simp only [isFull, hc]
+      simp only [isFull, hcap]
       exact decide_eq_false (by omega)
-    simp [gstep, pushRef, h1, hbp, hc]
+    simp [gstep, pushRef, h1, hbp, hcap]
+
+/-! ### Bridge to the layer generated from /repo on every run (`Gen/HeapIdx.lean`, gen/heap_gen.py) -/
+
+/-- The index arithmetic of the model is the index arithmetic of priority_queue.c: the hand-written
+`parentOf` / `leftOf` / `rightOf` equal the macros `PARENT_OF` / `LEFT_OF` / `RIGHT_OF` as re-translated from the
+source text (expanded by clang on a `size_t` argument) for every `size_t` value. -/
+theorem c06_bridge_index :
+    (∀ i, i < 2^64 → parentOf i = Gen.HeapIdx.PARENT_OF i) ∧
+    (∀ i, leftOf i = Gen.HeapIdx.LEFT_OF i) ∧ (∀ i, rightOf i = Gen.HeapIdx.RIGHT_OF i) :=
+  ⟨fun _ h => parentOf_gen h, leftOf_gen, rightOf_gen⟩
+
+/-- The stale-handle test of the model is the one of `aws_priority_queue_remove`: the statements in front of
+`s_remove_node`, re-translated from the source with the three state reads as parameters, proceed exactly when
+`current_index < length` and the back-pointer list exists and otherwise raise `PRIORITY_QUEUE_BAD_NODE`; and the
+model's `remove` is "evaluate that guard (`current_index = SIZE_MAX` for a handle not in the queue), then
+`s_remove_node` at `current_index`, else `BAD_NODE` with the queue unchanged". -/
+theorem c06_bridge_remove_guard :
+    (∀ ci len d, (Gen.HeapIdx.remove_guard ci len d = 0 ↔ (ci < len ∧ d ≠ 0)) ∧
+      (Gen.HeapIdx.remove_guard ci len d ≠ 0 →
+        Gen.HeapIdx.remove_guard ci len d = Gen.HeapIdx.AWS_ERROR_PRIORITY_QUEUE_BAD_NODE)) ∧
+    (∀ (c : Cmp) (q : PQ) (h : Nat), q.items.size < 2^64 →
+      remove c q h =
+        if Gen.HeapIdx.remove_guard (curIndex (q.handles h)) q.items.size (if q.bp.isSome then 1 else 0) = 0
+        then removeNode c q (curIndex (q.handles h)) else (q, .error .badNode)) :=
+  ⟨remove_guard_spec, remove_eq_guard⟩
+
+/-! ### The instance `Nat` with `≤` (the comparator of the C06 harness) -/
+
+/-- heap order for `natCmp` is the numeric one -/
+theorem c06_heap_inv_nat {g : G} (h : Reach natCmp g) :
+    (∀ i, 0 < i → i < g.q.items.size → kAt g.q.items ((i - 1) / 2) ≤ kAt g.q.items i) ∧ BpOK g.q := by
+  obtain ⟨h1, h2⟩ := c06_heap_inv natCmp_ok h
+  exact ⟨fun i hi hn => (natCmp_le _ _).mp (h1 i hi hn), h2⟩
+
+/-- `pop` / `top` on `Nat` keys return an element whose key is numerically ≤ every stored key -/
+theorem c06_pop_top_min_nat {g : G} (h : Reach natCmp g) (hne : g.ref ≠ []) :
+    (∃ e, (gstep natCmp g .pop).2 = .elem e ∧ e ∈ g.ref ∧ ∀ x ∈ g.ref, e.key ≤ x.key) ∧
+    (∃ e, (gstep natCmp g .top).2 = .elem e ∧ e ∈ g.ref ∧ ∀ x ∈ g.ref, e.key ≤ x.key) := by
+  obtain ⟨e, h1, h2, h3, _⟩ := (c06_pop_min natCmp_ok h).2 hne
+  obtain ⟨e', h1', h2', h3'⟩ := (c06_top_min natCmp_ok h).2.2 hne
+  exact ⟨⟨e, h1, h2, fun x hx => (natCmp_le _ _).mp (h3 x hx)⟩, ⟨e', h1', h2', fun x hx => (natCmp_le _ _).mp (h3' x hx)⟩⟩
 
 /-! The hypotheses are satisfiable by non-trivial states: a dynamic queue after six ops with two
 handles (one arriving late), and a full static queue. -/
@@ -219,15 +262,16 @@ handles (one arriving late), and a full static queue. -/
 def demoOps : List Op :=
   [.push 5 none, .push 3 none, .push 4 (some 1), .push 1 none, .push 1 (some 0), .pop]
 
-example : legal (G.init initDynamic) demoOps = true := by decide
-example : Reach (run (G.init initDynamic) demoOps) :=
+example : CmpOK natCmp := natCmp_ok
+example : legal natCmp (G.init initDynamic) demoOps = true := by decide
+example : Reach natCmp (run natCmp (G.init initDynamic) demoOps) :=
   ⟨initDynamic, demoOps, Or.inl rfl, by decide, by decide, rfl⟩
-example : (run (G.init initDynamic) demoOps).q.items.toList.map (·.key) = [1, 3, 4, 5] := by decide
-example : (run (G.init initDynamic) demoOps).q.handles 0 = some 0 ∧
-    (run (G.init initDynamic) demoOps).q.handles 1 = some 2 := by decide
-example : Reach (run (G.init (initStatic 2)) [.push 2 none, .push 1 none]) :=
+example : (run natCmp (G.init initDynamic) demoOps).q.items.toList.map (·.key) = [1, 3, 4, 5] := by decide
+example : (run natCmp (G.init initDynamic) demoOps).q.handles 0 = some 0 ∧
+    (run natCmp (G.init initDynamic) demoOps).q.handles 1 = some 2 := by decide
+example : Reach natCmp (run natCmp (G.init (initStatic 2)) [.push 2 none, .push 1 none]) :=
   ⟨initStatic 2, _, Or.inr ⟨2, rfl⟩, by decide, by decide, rfl⟩
-example : (gstep (run (G.init (initStatic 2)) [.push 2 none, .push 1 none]) (.push 0 none)).2 = .err .exceedsMax := by
+example : (gstep natCmp (run natCmp (G.init (initStatic 2)) [.push 2 none, .push 1 none]) (.push 0 none)).2 = .err .exceedsMax := by
   decide
 
 end AwsVerif.Props.C06
